@@ -40,7 +40,12 @@ def run_patch(kind, d, seed, pbf):
     pdir = os.path.join(VERIF, kind, d)
     patch = os.path.join(pdir, "patch.diff")
     files = touched(patch)
-    props = sorted({p for f in files for p in pbf.get(f, [])})
+    props = {p for f in files for p in pbf.get(f, [])}
+    try:  # always run the property the patch was written for (indirect faults touch files it is not anchored in)
+        props.add(json.load(open(os.path.join(pdir, "meta.json")))["property"])
+    except Exception:  # noqa
+        pass
+    props = sorted(props)
     wt = tempfile.mkdtemp(prefix="cross-", dir="/tmp")
     os.rmdir(wt)
     out = {"files": files, "checks": {}}
